@@ -22,6 +22,7 @@ import (
 // and relativises the target's URI against the referrer's base, so the
 // expected target is known by construction.
 type Universe struct {
+	Reloc   bool // see UniOpts.Relocatable
 	Draft7  bool
 	BaseURI string // BaseURI option for resolving Docs[0]; may be ""
 	Docs    []*Doc
@@ -98,6 +99,9 @@ type UniOpts struct {
 	// RootInPlace: give the root hop an in-place reference into another document where possible
 	// (the root then depends, at its own instance location, on what the Loader returns).
 	RootInPlace bool
+	// Relocatable: one host, no absolute $id, no absolute or network-path references, so that
+	// the whole universe can be served from another host as well (a mirror).
+	Relocatable bool
 }
 
 func (u *Universe) defsKey() string {
@@ -109,19 +113,29 @@ func (u *Universe) defsKey() string {
 
 // GenUniverse draws a universe from the world stream.
 func GenUniverse(c *Ctx, o UniOpts) *Universe {
-	u := &Universe{Draft7: o.Draft7}
+	u := &Universe{Draft7: o.Draft7, Reloc: o.Relocatable}
 	maxDocs := o.MaxDocs
 	if maxDocs == 0 {
 		maxDocs = 5
 	}
 	nd := 1 + c.W(maxDocs)
-	uris := subsetShuffled(c, docURIPool, nd)
+	pool := docURIPool
+	if o.Relocatable {
+		pool = docURIPool[:4] // one host
+		if nd > 4 {
+			nd = 4
+		}
+		if nd < 2 {
+			nd = 2
+		}
+	}
+	uris := subsetShuffled(c, pool, nd)
 	used := map[string]bool{}
 	for _, s := range uris {
 		used[s] = true
 	}
 	// Root configuration.
-	rootHasBase := c.W(4) != 0
+	rootHasBase := c.W(4) != 0 || o.Relocatable
 	for i := 0; i < nd; i++ {
 		d := &Doc{Index: i, URI: uris[i], Canon: uris[i]}
 		u.Docs = append(u.Docs, d)
@@ -142,6 +156,8 @@ func GenUniverse(c *Ctx, o UniOpts) *Universe {
 		}
 		// Root $id: none (mostly), same as retrieval, other absolute (alias), relative.
 		switch k := c.W(8); {
+		case o.Relocatable:
+			// no root $id: the document is identified by where it is retrieved from
 		case k == 0:
 			root.IDText = d.URI
 			if i == 0 && !rootHasBase {
@@ -199,7 +215,7 @@ func GenUniverse(c *Ctx, o UniOpts) *Universe {
 			if c.W(3) == 0 {
 				// embedded resource
 				var id string
-				if c.W(2) == 0 && n.Base.IsAbs() && n.Base.Opaque == "" {
+				if (c.W(2) == 0 || o.Relocatable) && n.Base.IsAbs() && n.Base.Opaque == "" {
 					id = pick(c, relIDPool)
 				} else {
 					id = pick(c, absIDPool)
@@ -234,7 +250,7 @@ func GenUniverse(c *Ctx, o UniOpts) *Universe {
 			n.Base = parent.Res.Base
 			if c.W(4) == 0 {
 				id := pick(c, absIDPool)
-				if c.W(2) == 0 && n.Base.IsAbs() && n.Base.Opaque == "" {
+				if (c.W(2) == 0 || o.Relocatable) && n.Base.IsAbs() && n.Base.Opaque == "" {
 					id = "l-" + pick(c, relIDPool)
 				}
 				nb := n.Base.ResolveReference(mustParse(id))
@@ -488,6 +504,9 @@ func (u *Universe) makeEdge(c *Ctx, h *Node, slot int, t *Node) *Edge {
 	// resolves to the intended resource and fragment.
 	var ok []cand
 	for _, cd := range cands {
+		if u.Reloc && (strings.HasPrefix(cd.form, "abs:") || strings.HasPrefix(cd.form, "abs+") || strings.HasPrefix(cd.form, "abs-") || strings.HasPrefix(cd.form, "netpath")) {
+			continue // would pin the reference to one host
+		}
 		ref, err := url.Parse(cd.text)
 		if err != nil {
 			continue
